@@ -279,4 +279,9 @@ def run(ctx):
     ctx.run("C03-R1", "report / check / schedule code uses exact routing queries only (no `_approx`)", r1_exact_routing_only, floor=1)
     ctx.run("C03-L1", "distance, duration and cost of a leg are queried for the same (from, to, departure) in every body that asks for both", l1_leg_queries_agree, floor=4)
     ctx.run("C03-G1", "place tags are indexed by place position", g1_tag_positions, floor=1)
+    try:
+        from . import c05
+        ctx.run("C05-R1", "schedule recurrence of the forward pass (arrival / departure / carry / total duration)", c05.r1_schedule_recurrence, floor=8)
+    except (ImportError, AttributeError):
+        pass
     ctx.run("C03-U1", "cost coefficients multiply quantities of their own unit", u1_units, floor=4)
